@@ -97,7 +97,7 @@ def confirm_replay(path):
 def project_tasks(prop, tier, base):
     tasks = []
     if tier == "quick":
-        n_hist = {"C20": 2500, "C10": 4000, "C09": 4000, "C11": 4000, "C14": 4000}[prop]
+        n_hist = {"C20": 2500, "C10": 4000, "C09": 4000, "C11": 4000, "C14": 8000}[prop]
         n_enum = 160 if prop == "C20" else 0
     else:
         n_hist = {"C20": 60000, "C10": 150000, "C09": 150000, "C11": 150000, "C14": 150000}[prop]
